@@ -304,4 +304,139 @@ def closeTime (evs : List Event) : Option Int :=
     | e :: es => let t := max e.t clk; if e.kind = .close then some t else go t es
   go 0 evs
 
+/-! ### What is transmitted: bytes and destination
+
+`send()` of both clients ends in `c.conn.WriteTo(msg.ToBytes(), dest)`
+(/repo/dhcpv4/nclient4/client.go:598, /repo/dhcpv6/nclient6/client.go:435) and
+is entered once per try: the request is encoded AGAIN on every try, from the
+value the caller's `*msg` holds at that moment, and written to the `dest`
+argument of `SendAndRead`, which the loop never changes.
+
+The machine below is the machine above with the transmission instants replaced
+by transmission records.  The call is described by `Call`: an abstract
+encoding function (`ToBytes`), the destination, and `reqAt k`, the value of the
+request when try `k` (0-based) runs `send` — constant when the caller leaves
+the request alone during the call, which is the property's domain; any other
+function describes a caller that changes the message between tries.
+`BState.erase` forgets bytes and destinations; `runObsB_erase`
+(Lemmas/ClientBytes.lean) shows the erased machine IS the machine above, so
+every theorem about instants carries over. -/
+
+/-- One `conn.WriteTo(bytes, dest)` made by the call, at virtual instant `t`. -/
+structure Tx (Dest : Type) where
+  t : Int
+  bytes : List UInt8
+  dest : Dest
+  deriving DecidableEq, Repr
+
+/-- What `SendAndRead(ctx, dest, msg, match)` was given, as far as the bytes on
+the wire go. -/
+structure Call (Req Dest : Type) where
+  /-- `(*DHCPv4).ToBytes` / `(*Message).ToBytes` -/
+  enc : Req → List UInt8
+  /-- the value `*msg` holds when try `k` calls `send` -/
+  reqAt : Nat → Req
+  /-- the `dest` argument -/
+  dest : Dest
+
+/-- the `WriteTo` of try `k`, made at instant `t` -/
+def Call.tx {Req Dest} (c : Call Req Dest) (k : Nat) (t : Int) : Tx Dest :=
+  ⟨t, c.enc (c.reqAt k), c.dest⟩
+
+/-- `Wait` with the transmissions in full -/
+structure WaitB (Dest : Type) where
+  k : Nat
+  start : Int
+  timeout : Int
+  sent : List (Tx Dest)
+  clk : Int
+
+inductive BState (Dest : Type) where
+  | waiting (w : WaitB Dest)
+  | done (sent : List (Tx Dest)) (t : Int) (o : Outcome)
+
+def WaitB.erase {Dest} (w : WaitB Dest) : Wait :=
+  { k := w.k, start := w.start, timeout := w.timeout, txs := w.sent.map (·.t), clk := w.clk }
+
+def BState.erase {Dest} : BState Dest → CState
+  | .waiting w => .waiting w.erase
+  | .done sent t o => .done (sent.map (·.t)) t o
+
+/-- `begin`: try 0 encodes the request as it is at call entry -/
+def beginB {Req Dest} (c : Call Req Dest) (T n : Int) : BState Dest :=
+  if n = 0 then .done [] 0 .noResp
+  else .waiting { k := 0, start := 0, timeout := T, sent := [c.tx 0 0], clk := 0 }
+
+/-- `fire`: the next try, `w.k + 1`, runs `send` again: `msg.ToBytes()` of the
+request as it is THEN, to the same `dest` -/
+def fireB {Req Dest} (c : Call Req Dest) (n : Int) (w : WaitB Dest) : BState Dest :=
+  let d := w.start + w.timeout
+  if n < 0 ∨ ((w.k : Int) + 1 < n) then
+    .waiting { k := w.k + 1, start := d, timeout := backoffMul * w.timeout,
+               sent := w.sent ++ [c.tx (w.k + 1) d], clk := w.clk }
+  else .done w.sent d .noResp
+
+def advanceB {Req Dest} (c : Call Req Dest) (n : Int) (t : Int) (incl : Bool) :
+    Nat → BState Dest → BState Dest
+  | 0, st => st
+  | _, .done sent t' o => .done sent t' o
+  | fuel + 1, .waiting w =>
+    let d := w.start + w.timeout
+    if d < t ∨ (incl = true ∧ d = t) then advanceB c n t incl fuel (fireB c n w) else .waiting w
+
+def stepObsB {Req Dest} (c : Call Req Dest) (n : Int) (st : BState Dest) (o : Obs) : BState Dest :=
+  match st with
+  | .done sent t out => .done sent t out
+  | .waiting w =>
+    let t := max o.t w.clk
+    match advanceB c n t o.afterTimer (advanceFuel w.start t) (.waiting w) with
+    | .done sent t' out => .done sent t' out
+    | .waiting w' =>
+      match o.kind with
+      | .irr | .rej => .waiting { w' with clk := t }
+      | .acc => .done w'.sent t (.resp o.tag)
+      | .ctx => .done w'.sent t .ctxErr
+      | .closed => .done w'.sent t .noResp
+
+structure ResultB (Dest : Type) where
+  sent : List (Tx Dest)
+  ret : Option (Int × Outcome)
+
+def ResultB.erase {Dest} (r : ResultB Dest) : Result := ⟨r.sent.map (·.t), r.ret⟩
+
+def finishB {Req Dest} (c : Call Req Dest) (n : Int) (H : Int) (st : BState Dest) : ResultB Dest :=
+  match st with
+  | .done sent t o => ⟨sent, some (t, o)⟩
+  | .waiting w =>
+    match advanceB c n H true (advanceFuel w.start H) (.waiting w) with
+    | .done sent t o => ⟨sent, some (t, o)⟩
+    | .waiting w' => ⟨w'.sent, none⟩
+
+def runFromB {Req Dest} (c : Call Req Dest) (n : Int) (st : BState Dest) (obs : List Obs) : BState Dest :=
+  obs.foldl (stepObsB c n) st
+
+/-- Layer 1 with bytes: every `WriteTo` of the call (instant, bytes,
+destination) and its return, for a given sequence of caller observations. -/
+def runObsB {Req Dest} (c : Call Req Dest) (T n : Int) (obs : List Obs) (H : Int) : ResultB Dest :=
+  finishB c n H (runFromB c n (beginB c T n) obs)
+
+/-- closed form: the `j`-th transmission of a call is made by try `j` -/
+def wireFrom {Req Dest} (c : Call Req Dest) : Nat → List Int → List (Tx Dest)
+  | _, [] => []
+  | j, t :: ts => c.tx j t :: wireFrom c (j + 1) ts
+
+/-- the transmission records that go with a list of transmission instants
+(`runObsB_sent`: this is what `runObsB` computes; the driver prints it for the
+results of `runCall`) -/
+def wire {Req Dest} (c : Call Req Dest) (txs : List Int) : List (Tx Dest) := wireFrom c 0 txs
+
+/-- a caller that does not touch the request during the call -/
+def Call.const {Req Dest} (enc : Req → List UInt8) (r : Req) (dest : Dest) : Call Req Dest :=
+  ⟨enc, fun _ => r, dest⟩
+
+/-- a caller that replaces the request `r` by `r'` while try `k` is waiting
+(after its `send`, before the next one) -/
+def Call.mutatedAfter {Req Dest} (enc : Req → List UInt8) (r r' : Req) (k : Nat) (dest : Dest) : Call Req Dest :=
+  ⟨enc, fun j => if j ≤ k then r else r', dest⟩
+
 end Dhcp.Client.Timed
